@@ -28,7 +28,7 @@ func Main(c16 bool) {
 	for _, s := range Seeds() {
 		corpus = append(corpus, Case{Text: s, Stream: "corpus"})
 	}
-	for _, s := range CorpusTexts("/verif/corpus/" + prop) {
+	for _, s := range CorpusTexts(lib.Root() + "/corpus/" + prop) {
 		corpus = append(corpus, Case{Text: s, Stream: "corpus"})
 	}
 	ck.Run(corpus)
